@@ -1394,8 +1394,9 @@ class ForAll(BinaryOperator):
     @property
     @lru_cache(maxsize=None)
     def condition_unique_variable_ids(self) -> List[int]:
+        # literals and predicates are functions of the other variables, they are not bound by the universal statement
         return [v.id_ for v in self.condition._unique_variables_.difference(self.left._unique_variables_)
-                if not isinstance(v.value, Literal)]
+                if not isinstance(v.value, Literal) and not v.value._predicate_type_]
 
     @staticmethod
     def _unify_(first: Dict[int, HashedValue], second: Dict[int, HashedValue]) -> Optional[Dict[int, HashedValue]]:
